@@ -75,6 +75,35 @@ def extra_cases():
     ]
 
 
+def arity_cases():
+    """element-wise operations called with more tensors than the elementary operation takes: nothing may be written into any argument (numpy ufuncs treat an extra
+    positional argument as output buffer), and a fixed-arity operation must refuse the call"""
+    import einx
+    out = []
+    fixed = {"subtract": 2, "true_divide": 2, "floor_divide": 2, "divide": 2, "less": 2, "less_equal": 2, "greater": 2, "greater_equal": 2, "equal": 2, "not_equal": 2, "where": 3}
+    nary = ["add", "multiply", "maximum", "minimum", "logical_and", "logical_or", "logaddexp"]
+    for op in list(fixed) + nary:
+        for k in (1, 2, 3, 4):
+            for be in ("numpy", "numpy.numpylike"):
+                ts = [np.arange(1.0, 4.0) + i for i in range(k)]
+                if op in ("logical_and", "logical_or"):
+                    ts = [t > 2 for t in ts]
+                if op == "where":
+                    ts[0] = ts[0] > 2
+                before = [snap(t) for t in ts]
+                desc = ", ".join(["a"] * k) + " -> a"
+                o = harness.call_einx(op, desc, ts, {}, be)
+                after = [snap(t) for t in ts]
+                d = {"op": op, "description": desc, "shapes": [[3]] * k, "kwargs": {}, "layout": "contiguous", "graph": False, "kwargs_form": f"{k} operands"}
+                status = "ok"
+                if before != after:
+                    status = "modified: " + ", ".join(f"argument {i}" for i in range(k) if before[i] != after[i]) + f" (operand count {k})"
+                elif op in fixed and k != fixed[op] and o[0] == "ok":
+                    status = f"computed with {k} operands although the elementary operation takes {fixed[op]}"
+                out.append((status, d, be))
+    return out
+
+
 def _work(args):
     seed, idx = args
     import random
@@ -125,7 +154,7 @@ def run(tier, seed):
     ok, sites, failing = frame.rule_inplace()
     chk.add_rule("C09.S.inplace", ok, sites, failing)
     n = 12 if tier == "quick" else 400
-    res = [x for r in harness.pmap(_work, [(seed, i) for i in range(-1, n)]) for x in r]
+    res = [x for r in harness.pmap(_work, [(seed, i) for i in range(-1, n)]) for x in r] + arity_cases()
     seen = set()
     fails = [r for r in res if r[0] != "ok"]
     for st, d, be in fails:
